@@ -25,8 +25,10 @@ Errors are the variants of `OutputPluginError` that can arise (never the message
 
 Modelling boundary (stated, not hidden): `construct_route_output` also serialises the last edge's state and
 cost through the `StateModel` / `CostModel` of the search instance (`traversal_summary`, `cost`, …).  Those
-values do not touch the `path`; their failure modes (state vector of the wrong length) are outside this model
-and the harness always supplies well-formed states to `process`.
+values do not touch the `path` and are not modelled; their one failure mode (last state vector shorter than the
+slots the cost model reads) is modelled through `SearchResult.costSlots`.
+Text-level parsing (the WKT grammar of the `wkt` crate, gzip, line splitting) is third-party: a file is modelled
+as the list of its rows, each row already classified as "parses to this linestring" or "rejected".
 
 No imports beyond other Model files (linked into the driver).
 -/
@@ -79,7 +81,20 @@ inductive Err where
   | invalidType (field : String)
   /-- not a plugin error: the search itself failed (`CompassAppError`), packaged by `create_initial_output` -/
   | search
+  /-- `BuildFailed(_)`: a lookup-table file could not be read or holds a row that does not parse -/
+  | build
+  /-- `std::io::Error` of the readers and row parsers of `geo_io_utils` / `read_utils` -/
+  | io
   deriving DecidableEq, Repr, Inhabited
+
+/-- outcome of a call that may panic -/
+inductive Outcome (α : Type) where
+  | ok (a : α)
+  | err (e : Err)
+  /-- `serde_json` index-assignment on a value that is neither an object nor `null`; `panic!()` /
+  `unimplemented!()` inside the `wkb` crate -/
+  | panic
+  deriving Repr, Inhabited
 
 /-- a GeoJSON `Feature { id, properties, geometry }` -/
 structure Feature where
@@ -293,18 +308,24 @@ def mapExcept {α β : Type} (f : α → Except Err β) : List α → Except Err
 
 /-- `plugin::construct_route_output`, the `path` member: an empty route is an error
 ("cannot find result route state when route is empty"); every error is re-wrapped as `OutputPluginFailed` -/
-def constructRouteOutput (g : Geoms) (fmt : Fmt) (route : List EdgeTraversal) : Except Err RouteOut :=
+def constructRouteOutput (slots : Nat) (g : Geoms) (fmt : Fmt) (route : List EdgeTraversal) : Except Err RouteOut :=
   match route.getLast? with
   | none => .error .failed
-  | some _ =>
+  | some last =>
     match generateRouteOutput g fmt route with
     | .error _ => .error .failed
-    | .ok o => .ok o
+    | .ok o =>
+      -- `cost_model.serialize_cost(&last_edge.result_state)`: `StateIndexOutOfBounds` when the last state is
+      -- shorter than the highest slot the cost model reads (never the case for a state produced by a search)
+      if last.state.length < slots then .error .failed else .ok o
 
 /-- `SearchAppResult`, the parts the output plugins read -/
 structure SearchResult where
   routes : List (List EdgeTraversal)
   trees : List Tree
+  /-- of the accompanying `SearchInstance`: number of state slots its cost model reads when serialising a cost
+  (highest feature index + 1; 0 = none) -/
+  costSlots : Nat := 0
   deriving Repr, Inhabited
 
 /-- configuration of a `TraversalPlugin` -/
@@ -330,7 +351,7 @@ def traversalProcess (cfg : TraversalCfg) (res : SearchResult) (r : Resp) : Exce
     match cfg.route with
     | none => .ok r
     | some fmt =>
-      match mapExcept (constructRouteOutput cfg.geoms fmt) res.routes with
+      match mapExcept (constructRouteOutput res.costSlots cfg.geoms fmt) res.routes with
       | .error _ => .error .failed
       | .ok outs => .ok { r with route := some (shape outs) }
   match afterRoute with
@@ -391,14 +412,6 @@ def uuidLookup (u : Uuids) (output : Json) : Except Err (String × String) :=
       | none => .error .failed
       | some du => .ok (ou, du)
 
-/-- outcome of a plugin call on a JSON value -/
-inductive Outcome (α : Type) where
-  | ok (a : α)
-  | err (e : Err)
-  /-- `serde_json` index-assignment on a value that is neither an object nor `null` -/
-  | panic
-  deriving Repr, Inhabited
-
 /-- `UUIDOutputPlugin::process(output, search_result)`; `searchOk = false` is the `Err(_) => Ok(())` arm -/
 def uuidProcess (u : Uuids) (searchOk : Bool) (output : Json) : Outcome Json :=
   if !searchOk then .ok output
@@ -412,6 +425,239 @@ def uuidProcess (u : Uuids) (searchOk : Bool) (output : Json) : Outcome Json :=
         match o1.indexAssign "destination_vertex_uuid" (.str du) with
         | none => .panic
         | some o2 => .ok o2
+
+/-! ### loading the lookup tables (`TraversalPlugin::from_file`, `read_linestring_text_file`,
+`UUIDOutputPlugin::from_file`, `read_utils::read_raw_file`) -/
+
+/-- a row of the geometry file after the (third-party) WKT parser: the linestring it denotes, or `none` when
+`LineString::try_from_wkt_str` rejects it (blank line, other geometry type, quoted / CSV-prefixed text, …) -/
+abbrev GeomRow := Option Line
+
+/-- a lookup-table file as the loaders see it -/
+structure TableFile (α : Type) where
+  /-- `File::open` succeeds -/
+  readable : Bool
+  /-- the byte stream decodes to the end (a truncated gzip member does not) -/
+  intact : Bool
+  rows : List α
+
+/-- `read_raw_file(file, parse_wkt_linestring, _)`: every row in order, the first rejected row aborts the load —
+a bad row is never skipped, so rows never shift against edge ids -/
+def parseRows : List GeomRow → Except Err (List Line)
+  | [] => .ok []
+  | none :: _ => .error .io
+  | some l :: r =>
+    match parseRows r with
+    | .error x => .error x
+    | .ok ls => .ok (l :: ls)
+
+/-- `geo_io_utils::read_linestring_text_file` -/
+def readLinestringTextFile (f : TableFile GeomRow) : Except Err (List Line) :=
+  if !f.readable then .error .io
+  else
+    match parseRows f.rows with
+    | .error x => .error x
+    | .ok ls => if f.intact then .ok ls else .error .io
+
+/-- `TraversalPlugin::from_file`: the same reader, every failure re-wrapped as `BuildFailed` -/
+def traversalFromFile (f : TableFile GeomRow) (route tree : Option Fmt) : Except Err TraversalCfg :=
+  match readLinestringTextFile f with
+  | .error _ => .error .build
+  | .ok ls => .ok { geoms := tableOf ls, route := route, tree := tree }
+
+/-- `UUIDOutputPlugin::from_file`: rows are taken verbatim (`|_idx, row| Ok(row)`) -/
+def uuidFromFile (f : TableFile String) : Except Err Uuids :=
+  if !f.readable || !f.intact then .error .build else .ok (uuidTableOf f.rows)
+
+/-- what `geo_io_utils::parse_wkb_linestring` meets in `wkb::wkb_to_geom` (third party, v0.7.1) when it hands it
+the **raw bytes of the text row** (`row.as_bytes()`, no hex decoding) -/
+inductive WkbRow where
+  /-- first byte 1, type 2, complete: a linestring; coordinates already narrowed `f64 → f32` -/
+  | linestring (l : Line)
+  /-- first byte 1, a complete geometry of another known type -/
+  | other
+  /-- the bytes end early (`WKBReadError::IOError`) -/
+  | truncated
+  /-- first byte 0 (`WKBReadError::UnsupportedBigEndian`) -/
+  | bigEndian
+  /-- first byte neither 0 nor 1 — every hex-encoded WKB text starts with `'0'` = 0x30: `panic!()` -/
+  | badByteOrder
+  /-- geometry type outside 1..7: `unimplemented!()` -/
+  | unknownType
+  deriving Repr, Inhabited
+
+/-- `geo_io_utils::parse_wkb_linestring` (public, not called from anywhere in the workspace) -/
+def parseWkbLinestring : WkbRow → Outcome Line
+  | .linestring l => .ok l
+  | .other => .err .io
+  | .truncated => .err .io
+  | .bigEndian => .err .io
+  | .badByteOrder => .panic
+  | .unknownType => .panic
+
+/-! ### the configuration builders (`TraversalPluginBuilder::build`, `UUIDOutputPluginBuilder::build`) -/
+
+/-- serde names of `TraversalOutputFormat` (`rename_all = "snake_case"`) -/
+def Fmt.name : Fmt → String
+  | .wkt => "wkt" | .wkb => "wkb" | .json => "json" | .geoJson => "geo_json" | .edgeId => "edge_id"
+
+def Fmt.all : List Fmt := [.wkt, .wkb, .json, .geoJson, .edgeId]
+
+def Fmt.ofName? (s : String) : Option Fmt := Fmt.all.find? fun f => f.name == s
+
+/-- `CompassConfigurationError` variants the two builders can produce -/
+inductive BuildErr where
+  /-- `ExpectedFieldForComponent` -/
+  | expectedField
+  /-- `ExpectedFieldWithType` -/
+  | fieldType
+  /-- `FileNotFoundForComponent` -/
+  | fileNotFound
+  /-- `SerdeDeserializationError` -/
+  | serde
+  /-- `PluginError(OutputPluginFailed { BuildFailed })` -/
+  | plugin
+  deriving DecidableEq, Repr, Inhabited
+
+/-- the `*_input_file` parameter -/
+inductive FileParam (α : Type) where
+  | absent
+  | notString
+  /-- a string that is not the path of a file -/
+  | noSuchFile
+  | file (f : TableFile α)
+
+/-- `get_config_serde_optional::<TraversalOutputFormat>`: an absent key is `None`; anything present must be one
+of the five names (JSON `null`, numbers and unknown names are deserialisation errors) -/
+def fmtParam (v : Option Json) : Except BuildErr (Option Fmt) :=
+  match v with
+  | none => .ok none
+  | some (.str s) =>
+    match Fmt.ofName? s with
+    | some f => .ok (some f)
+    | none => .error .serde
+  | some _ => .error .serde
+
+def filePath {α : Type} : FileParam α → Except BuildErr (TableFile α)
+  | .absent => .error .expectedField
+  | .notString => .error .fieldType
+  | .noSuchFile => .error .fileNotFound
+  -- `get_config_path` insists on `path.is_file()`
+  | .file f => if f.readable then .ok f else .error .fileNotFound
+
+/-- `TraversalPluginBuilder::build`: file parameter, then `route`, then `tree`, then the load -/
+def buildTraversal (file : FileParam GeomRow) (route tree : Option Json) : Except BuildErr TraversalCfg :=
+  match filePath file with
+  | .error e => .error e
+  | .ok f =>
+    match fmtParam route with
+    | .error e => .error e
+    | .ok r =>
+      match fmtParam tree with
+      | .error e => .error e
+      | .ok t =>
+        match traversalFromFile f r t with
+        | .error _ => .error .plugin
+        | .ok cfg => .ok cfg
+
+/-- `UUIDOutputPluginBuilder::build` -/
+def buildUuid (file : FileParam String) : Except BuildErr Uuids :=
+  match filePath file with
+  | .error e => .error e
+  | .ok f =>
+    match uuidFromFile f with
+    | .error _ => .error .plugin
+    | .ok u => .ok u
+
+/-! ### the plugins' `process` on a raw JSON output (direct calls; `apply_output_processing` only ever hands
+them a JSON object and never calls them after a failed search) -/
+
+/-- `TraversalPlugin::process(output, result)`.  `res = none` is the `Err(_) => Ok(())` arm (output untouched,
+reported as `.ok none`).  `assignable` says whether `output[key] = …` can succeed (`output` is an object or
+`null`); the order of effects is the code's: render routes, assign `route`, render trees, assign `tree`. -/
+def traversalProcessOn (cfg : TraversalCfg) (res : Option SearchResult) (assignable : Bool) : Outcome (Option Resp) :=
+  match res with
+  | none => .ok none
+  | some sr =>
+    let afterRoute : Outcome Resp :=
+      match cfg.route with
+      | none => .ok {}
+      | some fmt =>
+        match mapExcept (constructRouteOutput sr.costSlots cfg.geoms fmt) sr.routes with
+        | .error _ => .err .failed
+        | .ok outs => if assignable then .ok { route := some (shape outs) } else .panic
+    match afterRoute with
+    | .err x => .err x
+    | .panic => .panic
+    | .ok r1 =>
+      match cfg.tree with
+      | none => .ok (some r1)
+      | some fmt =>
+        match mapExcept (generateTreeOutput cfg.geoms fmt) sr.trees with
+        | .error x => .err x
+        | .ok outs => if assignable then .ok (some { r1 with tree := some (shape outs) }) else .panic
+
+/-- what the summary plugin reads from the `SearchAppResult` besides routes and trees (strings are opaque: the
+timestamp and the `hhmmss` text of the runtime) -/
+structure SummaryInput where
+  executedTime : String
+  runtime : String
+  iterations : Nat
+
+/-- JSON number of an unsigned integer (`json![n]`); the `f64` view is not used by this model -/
+def jnat (n : Nat) : Json := .num (toString n) 0
+
+/-- sequential `output[key] = value` -/
+def assignAll : Json → List (String × Json) → Option Json
+  | j, [] => some j
+  | j, (k, v) :: r =>
+    match j.indexAssign k v with
+    | none => none
+    | some j1 => assignAll j1 r
+
+/-- `SummaryOutputPlugin::process` on a raw JSON output; the memory size is not modelled (`null` placeholder) -/
+def summaryProcessOn (res : Option (SearchResult × SummaryInput)) (output : Json) : Outcome Json :=
+  match res with
+  | none => .ok output
+  | some (sr, si) =>
+    match assignAll output [
+        ("search_executed_time", .str si.executedTime),
+        ("search_runtime", .str si.runtime),
+        ("route_edges", jnat (routeEdgesCount sr)),
+        ("tree_size_count", jnat (treeSizeCount sr)),
+        ("search_result_size_mib", .null),
+        ("iterations", jnat si.iterations)] with
+    | none => .panic
+    | some j => .ok j
+
+/-- replace the value stored under `k` (the key exists) -/
+def replaceKv (kvs : List (String × Json)) (k : String) (v : Json) : List (String × Json) :=
+  kvs.map fun p => if p.1 == k then (k, v) else p
+
+/-- `UUIDJsonExtensions::add_od_uuids` (public, not used by the plugin): writes the two identifiers *into the
+request object* -/
+def addOdUuids (output : Json) (ou du : String) : Except Err Json :=
+  match output with
+  | .obj kvs =>
+    match Json.lookup kvs "request" with
+    | none => .error (.missingField "request")
+    | some (.obj rq) =>
+      .ok (.obj (replaceKv kvs "request"
+        (.obj (Json.insertKv (Json.insertKv rq "origin_vertex_uuid" (.str ou)) "destination_vertex_uuid" (.str du)))))
+    | some _ => .error (.invalidType "request")
+  | _ => .error (.missingField "request")
+
+/-- `TraversalJsonExtensions::get_route_geometry_wkt` (traversal/json_extensions.rs; public, used by no caller):
+expects a *string* under `route` — the plugin itself stores an object with a `path` member there -/
+def getRouteGeometryWkt (output : Json) : Except Err String :=
+  match output.get? "route" with
+  | none => .error (.missingField "route")
+  | some (.str s) => .ok s
+  | some _ => .error (.invalidType "route")
+
+/-- the JSON field names of `UUIDJsonField` and `TraversalJsonField`, in declaration order -/
+def fieldNames : List String :=
+  ["request", "origin_vertex", "destination_vertex", "origin_vertex_uuid", "destination_vertex_uuid", "route", "tree"]
 
 /-! ### apply_output_processing -/
 
